@@ -29,7 +29,7 @@ ASSUMPTIONS = [
     "{% provide %} wrapped around {% fill %} tags inside a component body is not generated (reading ambiguous)",
     "django mode + `only`: values of unpredicted variables are wildcards",
 ]
-BOUNDS = {"quick": {"programs": 3200, "sequences": 480}, "thorough": {"programs": 25000, "sequences": 4000}}
+BOUNDS = {"quick": {"programs": 3200, "sequences": 480}, "thorough": {"programs": 80000, "sequences": 12000}}
 CFG = {"provide": True, "inject": True, "errors": False, "isfilled": False, "max_nodes": 4, "provide_weight": 4, "inject_pct": 90}
 
 
@@ -215,7 +215,7 @@ def check_sequence(case, col=None):
 def plan(tier, seed, scale=1.0):
     b = BOUNDS[tier]
     n = max(16, int(b["programs"] * scale))
-    shards = 16 if tier == "quick" else 32
+    shards = 16 if tier == "quick" else 128
     specs = [{"kind": "main", "n": n // shards, "seed": derive_seed(seed, "c05", sh)} for sh in range(shards)]
     ns = max(8, int(b["sequences"] * scale))
     for sh in range(8):
